@@ -212,6 +212,12 @@ def replay_case(suite, desc):
     return True
 
 
+def shrink(suite, desc):
+    if suite == "serve":
+        return c09.shrink_serve(CHK, desc, "C10_shrink")
+    return None
+
+
 MANIFEST = {
     "text": ("Coq theorems (Props/C10.v) about the execute path and the framer unit filter interpreted from the skeletons "
              "regenerated from the three server modules and framer/__init__.py on every run, for every unit id, every "
